@@ -637,10 +637,14 @@ func ruleSeenCensus(c *Check, p *Prog, rule string, steps []*ssa.Function) {
 			case "produce":
 				c.OK(rule, inst, fnName(f), p.InstrPos(mk.In), "in the production step: the sequencer's own block", false)
 			case "apply":
-				hOK := g.Select(ErrNilEdge(func(t *Term) bool { return t.IsCall("pkg/store.Store).SetHeight") }))
+				// the height write may sit in a helper of the step: looked for two calls deep
+				ga := BuildECFG(p, f, ownPkgOpts(rootPath+"/block", 2))
+				c.NoteGraph(ga)
+				hOK := ga.Select(ErrNilEdge(func(t *Term) bool { return t.IsCall("pkg/store.Store).SetHeight") }))
+				isMk := func(x *Node) bool { return x.In == mk.In && x.Ctx.Depth == 0 && x.Kind == mk.Kind }
 				c.Decide(rule, inst, fnName(f), p.InstrPos(mk.In), "in the apply step, behind the success edge of Store.SetHeight",
-					"the apply step marks a hash seen on a path that has not passed the successful Store.SetHeight of the block: the mark can cover a block that is not committed", g,
-					g.PathAvoiding([]*Node{g.Entry}, func(x *Node) bool { return x == mk }, nodeSet(hOK)))
+					"the apply step marks a hash seen on a path that has not passed the successful Store.SetHeight of the block: the mark can cover a block that is not committed", ga,
+					ga.PathAvoiding([]*Node{ga.Entry}, isMk, nodeSet(hOK)))
 			default:
 				c.Bad(rule, inst, fnName(f), p.InstrPos(mk.In), "a hash is marked seen outside the sync loop's handlers, the production step and the apply step: a mark derived from anything but a committed block (e.g. from what the store holds at start-up) also covers a block that was saved but not yet applied when the node crashed — the sync loop and the DA handlers then drop every re-delivery of it and the node never passes that height", nil)
 			}
